@@ -105,7 +105,17 @@ def filing_lemma(ctx, q, registry, mf):
                 ok = stores == (0, 0) and same_loader(l1, loader)
                 ctx.ob(tag + "/reject-leaves-state", True if ok else False, None if ok else "rejected (%s) but the loader state changed" % ans)
                 if not ok:
-                    ctx.violation("filing/reject-changes-state", "a rejected instruction (%s) changes the loader state" % ans, None)
+                    # native confirmation: the same step on the compiled crate (empty containers): an Error answer must file nothing
+                    st_, m_ = q.check(list(r.pc), "filing-witness")
+                    w_ = m_.eval(op, model_completion=True).as_long() if st_ == "sat" else None
+                    rp_ = Replay()
+                    real = rp_.ask("loader_step %d %d %d" % (fopen, bopen, w_)) if w_ is not None else {}
+                    rp_.close()
+                    if real.get("answer", "Continue") != "Continue" and real.get("filed"):
+                        ctx.violation("filing/reject-changes-state", "a rejected instruction (%s, opcode %s) changes the loader state: %s" % (ans, w_, real),
+                                      {"cmd": "loader_step %d %d %s" % (fopen, bopen, w_), "real": real})
+                    else:
+                        ctx.inconclusive.append((tag + "/reject-leaves-state", "model-only: the compiled crate answers %s" % real))
                 continue
             n_inst, n_other_muts = stores
             ok = n_inst == 1 and n_other_muts == 0
@@ -198,7 +208,18 @@ def header_lemma(ctx, q, S):
             st, m = q.check(r.pc + [cond], "header-ok")
             ctx.ob("header/ok-keeps-bound-and-version", st == "unsat" or (False if st == "sat" else None))
             if st == "sat":
-                ctx.violation("header/fields", "an accepted header does not keep the bound (word 3) and major.minor (word 1), or the magic is wrong", None)
+                ws = [m.eval(x, model_completion=True).as_long() for x in w]
+                hexb = "".join(c03.le(x) for x in ws)
+                rp_ = Replay()
+                real = rp_.ask("parse_script %s C" % hexb)
+                rp_.close()
+                hdr = [e for e in real.get("events", []) if e.startswith("header")]
+                want = "header bound=%d version=%#x" % (ws[3], ws[1] & 0x00ffff00)
+                if "panic" in real or (hdr and hdr[0] != want) or (ws[0] != 0x07230203 and hdr):
+                    ctx.violation("header/fields", "an accepted header does not keep the bound (word 3) and major.minor (word 1), or the magic is wrong: "
+                                  "header words %s are delivered as %r" % ([hex(x) for x in ws], hdr[:1]), {"cmd": "parse_script %s C" % hexb, "real": real})
+                else:
+                    ctx.inconclusive.append(("header/ok-keeps-bound-and-version", "model-only: the compiled crate delivers %r for %s" % (hdr[:1], [hex(x) for x in ws])))
         elif kind == "HeaderIncomplete":
             st, m = q.check(r.pc + [z3.ULE(20, S.LEN)], "header-incomplete")
             ctx.ob("header/incomplete-iff-short", st == "unsat" or (False if st == "sat" else None))
@@ -222,7 +243,16 @@ def header_lemma(ctx, q, S):
             ok = out is not None and len(out) == 5 and all(a.eq(b) for a, b in zip(out, want))
             ctx.ob("header/assemble-emits-magic-version-generator-bound-reserved", True if ok else False, None if ok else str(out))
             if not ok:
-                ctx.violation("header/assemble-order", "ModuleHeader::assemble_into does not emit magic, version, generator, bound, reserved in order", None)
+                hexb = c03.HEADER[:24] + c03.le(77) + c03.le(0)
+                rp_ = Replay()
+                real = rp_.ask("load_disassemble %s" % hexb)
+                rp_.close()
+                ws = real.get("words", [])
+                if "panic" in real or (real.get("loaded") and not (len(ws) >= 5 and ws[0] == 0x07230203 and ws[1] == 0x00010000 and ws[3] == 77 and ws[4] == 0)):
+                    ctx.violation("header/assemble-order", "ModuleHeader::assemble_into does not emit magic, version, generator, bound, reserved in order: "
+                                  "a loaded header (version 1.0, bound 77) is assembled as %s" % ws[:5], {"cmd": "load_disassemble %s" % hexb, "real": real})
+                else:
+                    ctx.inconclusive.append(("header/assemble-order", "model-only: the compiled crate emits %s" % ws[:5]))
         except mir.Unsupported as ex:
             ctx.ob("header/assemble/encodable", None, str(ex)[:300])
 
